@@ -48,9 +48,11 @@ ASSUMPTIONS = [
     "compared with the j-th measured qubit of the key; Cirq key value = big-endian int of the measured bits",
     "tolerance: max-abs entry difference (unitary up to phase; probabilities and per-record density matrices x2) "
     "<= 10^-precision * pi * #emitted statements that carry an angle + 1e-7 (parameterless statements are exact)",
-    "documented rejections counted as Reject: ValueError 'Cannot output operation as QASM', 'QASM is defined only for ...', "
-    "'QASM 2.0 does not support multiple conditions', 'Key ... not in QasmArgs...'; BitMaskKeyCondition.qasm raises "
-    "NotImplementedError (treated as the same kind of rejection)",
+    "documented rejections are predicted from the recipe (more than one condition in 2.0, multi-bit / indexed KeyCondition, "
+    "sympy condition other than key == constant, BitMaskKeyCondition (raises NotImplementedError), confusion map) and "
+    "matched with the exception *type* and raising site (innermost traceback frame), never the message text; a predicted "
+    "rejection that does not happen is a violation, an unpredicted one a crash; the exporter's on_stuck ValueError "
+    "(operation without any QASM form, raised from the decompose protocol) is accepted wherever it occurs",
 ]
 SENSITIVITY = [
     "ZPowGate qasm: sdg emitted for exponent +0.5",
@@ -81,13 +83,6 @@ VERSIONS = ["2.0", "3.0"]
 HEADERS = [None, "", "custom header", "two\nlines // x", "tricky */ /* \" ; qreg z[2];\n\n  trailing  "]
 ENTRIES = ["to_qasm", "to_qasm", "to_qasm", "qasm_fn", "qasm_args", "output"]
 KEYS = ["a", "b", "c_1", "K9", "x y", "p:q", "0"]
-DOC_VALUE_ERRORS = (
-    "Cannot output operation as QASM",
-    "QASM is defined only for",
-    "QASM 2.0 does not support multiple conditions",
-    "Key \"",
-)
-
 
 # ----------------------------------------------------------------------------------------- export + parse
 
@@ -113,8 +108,36 @@ def _opts(draw):
     }
 
 
-def _export(circuit, r, order):
-    """Returns (text, effective order, precision, version).  Documented rejections -> Reject."""
+def effective_version(r):
+    return "2.0" if r.get("entry") == "qasm_fn" else r.get("version", "2.0")
+
+
+def _rejection_site(e):
+    """Where an exception of the exporter was raised (innermost frame): "condition" = a ``_qasm_`` / ``qasm`` of a
+    condition or of a classically controlled operation, "stuck" = the decompose protocol raising the exporter's
+    ``on_stuck`` error for an operation without any QASM form.  Never looks at the message text."""
+    import os
+    import traceback
+
+    tb = traceback.extract_tb(e.__traceback__)
+    if not tb:
+        return None
+    fr = tb[-1]
+    base = os.path.basename(fr.filename)
+    if base in ("condition.py", "classically_controlled_operation.py", "if_op.py") and fr.name in ("_qasm_", "qasm"):
+        return "condition"
+    if base == "decompose_protocol.py":
+        return "stuck"
+    return None
+
+
+def _export(circuit, r, order, expected=()):
+    """Returns (text, effective order, precision, version).
+
+    ``expected`` = [(kind, exception type name, certain)] : the documented rejections that the *recipe* predicts
+    (see ``expected_rejections``).  An exception is a Reject only if its type and raising site fit a predicted rejection,
+    or if it is the exporter's on_stuck ValueError (operation without any QASM form); a certainly predicted rejection
+    that does not happen is a violation; anything else propagates (crash bucket)."""
     entry = r.get("entry", "to_qasm")
     precision, version = r.get("precision", 10), r.get("version", "2.0")
     header = HEADERS[r.get("header", 0) % len(HEADERS)]
@@ -131,19 +154,21 @@ def _export(circuit, r, order):
                                        version=version))
         else:
             text = circuit.to_qasm(header=header, precision=precision, qubit_order=order, version=version)
-    except ValueError as e:
-        msg = str(e)
-        for d in DOC_VALUE_ERRORS:
-            if msg.startswith(d):
-                raise Reject("documented ValueError: " + d.strip(' "'))
+    except (ValueError, NotImplementedError) as e:
+        site = _rejection_site(e)
+        tname = type(e).__name__
+        if site == "stuck" and tname == "ValueError":
+            fit = [k for k, t, _ in expected if k == "confusion map"]
+            raise Reject("ValueError from on_stuck: " + (fit[0] if fit else "operation without QASM form"))
+        if site == "condition":
+            fit = [k for k, t, _ in expected if t == tname and k != "confusion map"]
+            if fit:
+                raise Reject(f"{tname}: {fit[0]}")
         raise
-    except NotImplementedError as e:
-        # BitMaskKeyCondition.qasm: ``raise NotImplementedError()``
-        import traceback
-
-        if traceback.extract_tb(e.__traceback__)[-1].name == "qasm":
-            raise Reject("NotImplementedError from Condition.qasm")
-        raise
+    must = sorted({k for k, _, certain in expected if certain})
+    if must:
+        raise Violation(f"export accepted a circuit that the documented rules reject ({', '.join(must)}), version {version}\n"
+                        f"circuit:\n{circuit}\n{_strip_header(text)}")
     return text, list(order), precision, version
 
 
@@ -700,10 +725,47 @@ def _collect(branches, convert):
     return acc
 
 
+def expected_rejections(steps, version):
+    """Documented rejections predicted from the resolved recipe alone -> [(kind, exception type, certain)].
+
+    * ClassicallyControlledOperation / If ``_qasm_``: more than one condition in OpenQASM 2.0 -> ValueError (checked before
+      anything else, hence certain);
+    * KeyCondition: explicit index -> ValueError; key of more than one bit in 2.0 (only ``==`` exists) -> ValueError;
+    * SympyCondition not of the form key == constant -> ValueError;  BitMaskKeyCondition -> NotImplementedError;
+    * measurement with a confusion map: no QASM form -> the exporter's on_stuck ValueError (certain).
+    A condition is only *certainly* evaluated when its operation has to be emitted, i.e. is not the identity up to phase
+    (an identity such as WaitGate decomposes to nothing and its conditions are never looked at)."""
+    out = []
+    for e in steps:
+        if e["k"] == "m" and e.get("conf"):
+            out.append(("confusion map", "ValueError", True))
+        if e["k"] != "cc":
+            continue
+        u = cirq.unitary(G.build_gate(e["g"]), None)
+        nonid = u is not None and L.diff_up_to_phase(u, np.eye(u.shape[0])) > 1e-6
+        if len(e["conds"]) > 1 and version == "2.0":
+            out.append(("multiple conditions in 2.0", "ValueError", True))
+        for c in e["conds"]:
+            t = c["t"]
+            if t == "key_index":
+                idx = c.get("index", -1)
+                if -c["times"] <= idx < c["times"] and idx != -1:
+                    out.append(("KeyCondition with explicit index", "ValueError", nonid))
+                    continue
+                t = "key"
+            if t == "key" and version == "2.0" and c["bits"] != 1:
+                out.append(("multi-bit KeyCondition in 2.0", "ValueError", nonid))
+            elif t == "bitmask":
+                out.append(("BitMaskKeyCondition", "NotImplementedError", nonid))
+            elif t == "sympy_other":
+                out.append(("sympy condition other than key == constant", "ValueError", nonid))
+    return out
+
+
 def oracle_ff(r):
     circuit, qs, steps, arity = _build_ff(r)
     order = _ordered_qubits(r, qs)
-    text, order, precision, version = _export(circuit, r, order)
+    text, order, precision, version = _export(circuit, r, order, expected_rejections(steps, effective_version(r)))
     return compare_program(circuit, order, text, precision, version, steps, r.get("entry"))
 
 
